@@ -384,6 +384,40 @@ func errorsNotDropped(c *Ctx) {
 					c.R.OK(key, c.ipos(i), "reviewed: "+why)
 					continue
 				}
+				// a helper of the package whose only error comes from a reviewed encode (marshalErrorResponse wraps
+				// json.Marshal(*graphql.Response)): ignoring the helper's error is ignoring that one
+				if h := call.Call.StaticCallee(); h != nil && h.Pkg == top.Pkg && len(h.Blocks) > 0 && top.Pkg != nil {
+					reviewedInner, otherErr := false, false
+					for _, hb := range h.Blocks {
+						for _, hi := range hb.Instrs {
+							hc, ok := hi.(*ssa.Call)
+							if !ok {
+								continue
+							}
+							hr := hc.Call.Signature().Results()
+							if hr.Len() == 0 || !an.IsErrorType(hr.At(hr.Len()-1).Type()) {
+								continue
+							}
+							hname := lastSeg(an.CalleeOf(hc).FullName())
+							if len(hc.Call.Args) > 0 {
+								a := hc.Call.Args[0]
+								if mi, ok := a.(*ssa.MakeInterface); ok {
+									a = mi.X
+								}
+								hk := shortPkgPath(top.Pkg.Pkg.Path()) + ":" + hname + "(" + strings.ReplaceAll(a.Type().String(), modPath("")+"/", "") + ")"
+								if _, ok := errorsDroppedReviewed[hk]; ok {
+									reviewedInner = true
+									continue
+								}
+							}
+							otherErr = true
+						}
+					}
+					if reviewedInner && !otherErr {
+						c.R.OK(key, c.ipos(i), "reviewed: the helper's only error is that of the reviewed encode inside it")
+						continue
+					}
+				}
 				// reviewed by what is encoded rather than by where: package + callee + static type of the encoded value
 				if len(call.Call.Args) > 0 && top.Pkg != nil {
 					arg := call.Call.Args[0]
